@@ -1651,19 +1651,62 @@ check_fixed_point(Result& r, const RegClass& c, const std::string& text, const s
       r.viol("roundtrip-print-throws:" + keyify(c.id()), tag + ": " + clip(e.what(), 300));
       return;
     }
-  if (t2 == text)
-    {
-      r.count("roundtrip_texts_identical");
-      return;
-    }
   bool jitter = false;
-  const std::string d = text_diff(text, t2, jitter);
-  if (jitter)
+  if (t2 == text)
+    r.count("roundtrip_texts_identical");
+  else
     {
+      const std::string d = text_diff(text, t2, jitter);
+      if (!jitter)
+        {
+          r.viol("roundtrip-text-differs:" + keyify(c.id()), tag + ": " + d + "\n--- first print:\n" + clip(text, 1200));
+          return;
+        }
       r.count("roundtrip_numeric_jitter_only");
-      return;
     }
-  r.viol("roundtrip-text-differs:" + keyify(c.id()), tag + ": " + d + "\n--- first print:\n" + clip(text, 1200));
+  // the same text with DOS/Windows line ends (documented as allowed, also on continued lines) must give the same object
+  {
+    std::string dos;
+    bool has_cont = false;
+    for (size_t i = 0; i < text.size(); ++i)
+      {
+        if (text[i] == '\n')
+          {
+            if (i > 0 && text[i - 1] == '\\')
+              has_cont = true;
+            dos += '\r';
+          }
+        dos += text[i];
+      }
+    std::istringstream ind(dos);
+    std::unique_ptr<RegisteredObjectBase> obj3;
+    std::string t3;
+    try
+      {
+        obj3.reset(c.read(&ind, c.name));
+        if (obj3)
+          t3 = obj3->parameter_info();
+      }
+    catch (const std::exception& e)
+      {
+        obj3.reset();
+        t3 = std::string("exception: ") + e.what();
+      }
+    r.count("roundtrip_dos_line_end_texts_parsed");
+    if (has_cont)
+      r.count("roundtrip_dos_line_end_texts_with_continued_lines");
+    if (!obj3)
+      r.viol("roundtrip-dos-line-ends-rejected:" + keyify(c.id()),
+             tag + ": the printed text is accepted, the same text with CR LF line ends is not (" + clip(t3, 200) + ")\n--- text:\n" + clip(text));
+    else if (t3 != t2)
+      {
+        bool j3 = false;
+        const std::string d3 = text_diff(t2, t3, j3);
+        if (!j3)
+          r.viol("roundtrip-dos-line-ends-change-the-object:" + keyify(c.id()),
+                 tag + ": parsing the printed text with CR LF line ends gives another object: " + d3 + "\n--- text:\n" + clip(text, 1200));
+      }
+  }
 }
 
 // documented-equivalent respelling of a keyword: case changes, white-space runs from {space, tab, _, !}
@@ -3352,9 +3395,51 @@ keywords_testparser(Ctx& ctx)
   lines.push_back(kw_line("end test parameters", "", "", rng));
   if (rng.coin(0.3))
     lines.push_back("int value := 424242"); // after the stop key: must not be read
-  const std::string text = join_lines(lines);
+  // documented-equivalent line layouts: a line ending with a backslash is continued on the next one ("the next line will just be
+  // appended"); '\r' is allowed at the end of a line (DOS/Windows files).  Lists are broken after a comma.
+  bool continued = false, dos = false;
+  if (rng.coin(0.4))
+    for (auto& l : lines)
+      {
+        const size_t ob = l.find('{');
+        if (ob == std::string::npos || l.find(":=") == std::string::npos || l.find(":=") > ob)
+          continue;
+        std::vector<size_t> commas;
+        for (size_t i = ob; i < l.size(); ++i)
+          if (l[i] == ',')
+            commas.push_back(i);
+        if (commas.empty() || !rng.coin(0.7))
+          continue;
+        const int nbreaks = static_cast<int>(rng.range(1, std::min<long>(3, static_cast<long>(commas.size()))));
+        rng.shuffle(commas);
+        commas.resize(static_cast<size_t>(nbreaks));
+        std::sort(commas.begin(), commas.end(), std::greater<size_t>());
+        for (size_t c : commas)
+          l = l.substr(0, c + 1) + "\\\n" + l.substr(c + 1);
+        continued = true;
+      }
+  std::string text = join_lines(lines);
+  if (rng.coin(0.3))
+    {
+      std::string t;
+      for (char ch : text)
+        {
+          if (ch == '\n')
+            t += '\r';
+          t += ch;
+        }
+      text = t;
+      dos = true;
+    }
+  if (continued)
+    ctx.count("keyword_texts_with_continued_lines");
+  if (dos)
+    ctx.count("keyword_texts_with_dos_line_ends");
+  if (continued && dos)
+    ctx.count("keyword_texts_with_continued_lines_and_dos_line_ends");
   const std::string expect = model.state_of_fields();
   ctx.desc.add("mode", "keywords").add("sub", "test-parser-vs-reference").add("lines", static_cast<long>(lines.size()));
+  ctx.desc.add("continued_lines", continued).add("dos_line_ends", dos);
   ctx.desc.add("bad_line", bad_kind).add("input_hash", hex_hash(text));
   Result r = g_iso.run(ctx, "KeyParser::parse", "test parser, " + std::to_string(lines.size()) + " lines", [&](Result& rr) {
     AllocScope guard;
